@@ -18,6 +18,7 @@ package main
 import (
 	"fmt"
 	"os"
+	"reflect"
 	"sort"
 	"strconv"
 	"strings"
@@ -25,7 +26,58 @@ import (
 	"gnoverif/kit"
 )
 
+// covered tells whether the model can follow a value/type: everything in the
+// env is inside the modelled descriptor language.
+func envCovered(env string) bool {
+	return !strings.Contains(env, "A") && !strings.Contains(env, "X32") && !strings.Contains(env, "?")
+}
+
+// envMV computes the env and MV tokens of *T.
+func envMV(rt *regType, pv reflect.Value) (env, mv string, ok bool) {
+	e := newEnv()
+	var err error
+	p, _ := safely(func() { mv, err = mvTop(pv, rt.Info, e) })
+	if p || err != nil {
+		return "", "", false
+	}
+	env = e.String()
+	return env, mv, envCovered(env)
+}
+
+// anyNames lists the concrete type names under interfaces in an MV string.
+func anyNames(mv string) []string {
+	var out []string
+	for i := 0; i < len(mv); i++ {
+		if mv[i] == '<' {
+			j := strings.IndexByte(mv[i:], ':')
+			if j > 0 {
+				out = append(out, mv[i+1:i+j])
+			}
+		}
+	}
+	return out
+}
+
+// compact keeps long canonical outputs under the kit's 300-character line
+// limit: head, total length and FNV-1a/64 of the whole string.
+func compact(s string) string {
+	if len(s) <= 200 {
+		return s
+	}
+	h := uint64(14695981039346656037)
+	for i := 0; i < len(s); i++ {
+		h ^= uint64(s[i])
+		h *= 1099511628211
+	}
+	return fmt.Sprintf("%s~%d~%016x", s[:96], len(s), h)
+}
+
 func execOp(toks []string) (string, string) {
+	impl, orc := execOp1(toks)
+	return compact(impl), orc
+}
+
+func execOp1(toks []string) (string, string) {
 	if len(toks) < 3 {
 		return "err:badop", "-"
 	}
@@ -41,15 +93,27 @@ func execOp(toks []string) (string, string) {
 		seed := kit.Atou64(toks[2])
 		depth := kit.Atoi(toks[3])
 		pv := genTop(rt, seed, depth, true)
-		enc, mv, verdict := checkRT(rt, pv)
+		enc, _, verdict := checkRT(rt, pv)
 		if toks[0] == "rtx" {
 			return "n", verdict
 		}
-		_ = mv
+		if len(toks) != 6 {
+			return "err:badop", "-"
+		}
+		env, mv, ok := envMV(rt, pv)
+		if !ok || env != toks[4] || mv != toks[5] {
+			return "err:badop", "-" // the line's env/value tokens are not the ones of <seed>
+		}
 		if enc.err != nil || enc.panicked {
 			return "err:enc", verdict
 		}
-		return hexOrE(enc.bz) + " rt=ok", verdict
+		rts := "ok"
+		if strings.Contains(env, "M") {
+			rts = "skip"
+		} else if strings.HasPrefix(verdict, "VIOL:rt-") {
+			rts = "bad"
+		}
+		return hexOrE(enc.bz) + " rt=" + rts, verdict
 	case "decx", "dec":
 		bz := kit.MustUnHex(toks[2])
 		d1, m1, verdict := checkDec(rt, bz)
@@ -64,16 +128,72 @@ func execOp(toks []string) (string, string) {
 	return "err:badop", "-"
 }
 
+// emitRT writes an rt (model-covered) or rtx line for (type, seed, depth).
+func emitRT(w *kit.Out, t *regType, seed uint64, depth int) {
+	pv := genTop(t, seed, depth, true)
+	if env, mv, ok := envMV(t, pv); ok && len(env)+len(mv) < 60000 {
+		w.Op("rt %s %d %d %s %s", t.Name, seed, depth, env, mv)
+		return
+	}
+	w.Op("rtx %s %d %d", t.Name, seed, depth)
+}
+
+// emitDec writes a dec (model-covered) or decx line for bytes bz, using the env
+// of the value the bytes were derived from.
+func emitDec(w *kit.Out, t *regType, bz []byte, env string, envOK bool) {
+	if envOK && !strings.Contains(env, "M") && len(env) < 60000 {
+		// the model only knows the concrete types of `env`; if the real decoder
+		// accepts with some other registered type under an interface, do not ask the model.
+		d := decReflect(t, bz)
+		ok := true
+		if !d.panicked && d.err == nil {
+			mv := mvOrErr(d.pv, t.Info)
+			for _, n := range anyNames(mv) {
+				if !strings.Contains(env, n+"@") && !strings.Contains(env, n+"=") {
+					ok = false
+				}
+			}
+		}
+		if ok {
+			w.Op("dec %s %s %s", t.Name, kit.Hex(bz), env)
+			return
+		}
+	}
+	w.Op("decx %s %s", t.Name, kit.Hex(bz))
+}
+
 func gen(w *kit.Out, r *kit.Rand, tier string) {
-	perType := 3
+	perType, decPer := 4, 6
 	if tier == "thorough" {
-		perType = 30
+		perType, decPer = 40, 60
 	}
 	w.Case("rt")
 	for _, t := range regTypes {
-		w.Op("rtx %s 0 0", t.Name)
+		emitRT(w, t, 0, 0)
 		for i := 0; i < perType; i++ {
-			w.Op("rtx %s %d %d", t.Name, r.U64()>>1, 1+r.Intn(4))
+			emitRT(w, t, r.U64()>>1, 1+r.Intn(4))
+		}
+	}
+	w.Case("dec")
+	for _, t := range regTypes {
+		for i := 0; i < decPer; i++ {
+			seed, depth := r.U64()>>1, 1+r.Intn(3)
+			pv := genTop(t, seed, depth, true)
+			env, _, envOK := envMV(t, pv)
+			e := encReflect(pv)
+			var bz []byte
+			switch {
+			case i%6 == 5:
+				bz = garbage(r)
+			case i%6 == 0:
+				bz = e.bz
+			default:
+				bz = mutate(r, e.bz)
+				if r.Chance(30) {
+					bz = mutate(r, bz)
+				}
+			}
+			emitDec(w, t, bz, env, envOK)
 		}
 	}
 }
